@@ -135,6 +135,8 @@ func sqlKey(req *pgsim.Request) string {
 		k = k[:60]
 	}
 	a := req.Args
+	// only a prefix: long byte arguments (gob-encoded puredkg state with Go maps inside, ECIES
+	// ciphertexts) are not canonical and must not influence the canonical request order
 	if len(a) > 40 {
 		a = a[:40]
 	}
@@ -407,6 +409,11 @@ func (w *worldC) gate() {
 		}
 		nd.gated = true
 		nd.db.SetGate(func(req *pgsim.Request) pgsim.Action {
+		// prepare-only round trips (pgx statement cache misses) depend on which pooled connection a
+		// goroutine happened to get and have no effect: they are not scheduling points
+		if req.Prepare {
+			return pgsim.Proceed
+		}
 			v := w.s.Park(nd.name, "db", sqlKey(req), req)
 			if a, ok := v.(pgsim.Action); ok {
 				return a
